@@ -2,7 +2,9 @@ package otto
 
 import (
 	"math"
+	"math/big"
 	"strconv"
+	"strings"
 
 	"golang.org/x/text/language"
 	"golang.org/x/text/message"
@@ -63,7 +65,23 @@ func builtinNumberToFixed(call FunctionCall) Value {
 	if math.Abs(value) >= 1e21 {
 		return stringValue(floatToString(value, 64))
 	}
-	return stringValue(strconv.FormatFloat(value, 'f', int(precision), 64))
+	// ES5 15.7.4.5 step 8: the integer n for which n / 10^f - x is as close to zero as
+	// possible, the larger n if there are two such n (strconv rounds such ties to even).
+	f := int(precision)
+	x := new(big.Rat).SetFloat64(math.Abs(value))
+	x.Mul(x, new(big.Rat).SetInt(new(big.Int).Exp(big.NewInt(10), big.NewInt(int64(f)), nil)))
+	x.Add(x, big.NewRat(1, 2))
+	digits := new(big.Int).Quo(x.Num(), x.Denom()).String()
+	if f > 0 {
+		if len(digits) <= f {
+			digits = strings.Repeat("0", f+1-len(digits)) + digits
+		}
+		digits = digits[:len(digits)-f] + "." + digits[len(digits)-f:]
+	}
+	if value < 0 {
+		digits = "-" + digits
+	}
+	return stringValue(digits)
 }
 
 func builtinNumberToExponential(call FunctionCall) Value {
